@@ -42,8 +42,8 @@ class ConstraintUniqueVecModel(ConstraintModel):
         sz = -1
         for i in self.unique_l:
             if sz == -1:
-                sz = len(i.fm.field_l)
-            elif sz != len(i.fm.field_l):
+                sz = len(self._elems(i))
+            elif sz != len(self._elems(i)):
                 raise Exception("All arguments to unique_vec must be of the same size")
 
         # Form ORs of inequalities across the vector pairs
@@ -59,13 +59,20 @@ class ConstraintUniqueVecModel(ConstraintModel):
 
         return and_e
     
+    def _elems(self, v):
+        # Only the elements within the current size are part of the list
+        # (random-size lists are pre-extended to their largest size)
+        return v.fm.field_l[:int(v.fm.size.get_val())]
+
     def _mkVecNotEq(self, btor, v1, v2):
         ret = None
-        for i in range(len(v1.fm.field_l)):
+        e1 = self._elems(v1)
+        e2 = self._elems(v2)
+        for i in range(len(e1)):
             ne = ExprBinModel(
-                ExprFieldRefModel(v1.fm.field_l[i]), 
+                ExprFieldRefModel(e1[i]), 
                 BinExprType.Ne, 
-                ExprFieldRefModel(v2.fm.field_l[i]))
+                ExprFieldRefModel(e2[i]))
             if ret is None:
                 ret = ne.build(btor)
             else:
